@@ -4,6 +4,7 @@ import (
 	"fmt"
 	"go/token"
 	"go/types"
+	"net/textproto"
 	"strings"
 
 	"golang.org/x/tools/go/ssa"
@@ -110,8 +111,8 @@ func init() {
 		"github.com/opencontainers/go-digest.Parse": effDigestParse,
 		"(github.com/opencontainers/go-digest.Digest).Validate":     effDigestValidate,
 		"(github.com/opencontainers/go-digest.Digest).String":       func(fe *FnEnc, st *State, c *ssa.Function, a []RV, p token.Pos) []RV { return one(fe.val(a[0])) },
-		"(github.com/opencontainers/go-digest.Digest).Algorithm":    ufEffect("digest.alg", sStr),
-		"(github.com/opencontainers/go-digest.Digest).Encoded":      ufEffect("digest.hex", sStr),
+		"(github.com/opencontainers/go-digest.Digest).Algorithm":    digestPart("digest.alg"),
+		"(github.com/opencontainers/go-digest.Digest).Encoded":      digestPart("digest.hex"),
 		"(github.com/opencontainers/go-digest.Algorithm).String":    func(fe *FnEnc, st *State, c *ssa.Function, a []RV, p token.Pos) []RV { return one(fe.val(a[0])) },
 		"(github.com/opencontainers/go-digest.Algorithm).Available": ufEffect("digest.algAvailable", sBool),
 		"errors.Is": effErrorsIs,
@@ -165,6 +166,16 @@ func init() {
 		"(net/url.Values).Set":                noEffect,
 		"(net/url.Values).Encode":             ufFreshStr,
 		"(*net/http.Request).Context":         noEffect,
+		// upload objects: a tee writer remembers what it writes to; the hash of a digester is a function of the digester
+		"io.MultiWriter": effMultiWriter,
+		"github.com/opencontainers/go-digest.Digester.Hash": effDigesterHash,
+		"github.com/opencontainers/go-digest.Digester.Digest": effDigesterDigest,
+		"(github.com/opencontainers/go-digest.Algorithm).Digester": effNewDigester,
+		// paths (C16)
+		"path/filepath.Join": effPathJoin,
+		"os.CreateTemp":      effCreateTemp,
+		"(*os.File).Name":    func(fe *FnEnc, st *State, c *ssa.Function, a []RV, p token.Pos) []RV { return one(fileName(fe, fe.val(a[0]))) },
+		"io/fs.DirEntry.Name": effDirEntryName,
 		// command line flags: registration stores the default through the pointer and records the
 		// target of the flag name in the ghost registry FLAGS (C19 wiring)
 		"(*github.com/spf13/pflag.FlagSet).BoolVar":        effFlagVar,
@@ -473,6 +484,10 @@ func effRespHeader(fe *FnEnc, st *State, callee *ssa.Function, args []RV, pos to
 const hdrVals = "HDR"
 
 func canonKey(fe *FnEnc, k Term) Term {
+	// the canonical form of a literal header name is computed here (so different literal names are different keys)
+	if lit, ok := fe.lits[k.S]; ok {
+		return fe.strLit(textproto.CanonicalMIMEHeaderKey(lit))
+	}
 	fe.declFun("hdr.canon", []string{sStr}, sStr)
 	return Term{app("hdr.canon", k), sStr}
 }
@@ -714,4 +729,174 @@ func effFlagVar(fe *FnEnc, st *State, callee *ssa.Function, args []RV, pos token
 	h := fe.getComp(st, "FLAGS", srt)
 	fe.setComp(st, "FLAGS", srt, tStore(h, fe.val(args[2]), fe.val(args[1])))
 	return nil
+}
+
+
+// io.MultiWriter(a, b): a new writer w with tee.a(w) = a and tee.b(w) = b (values of the interface arguments)
+func effMultiWriter(fe *FnEnc, st *State, callee *ssa.Function, args []RV, pos token.Pos) []RV {
+	r := fe.newRef(st)
+	fe.declConst("typ.multiwriter", sInt)
+	fe.declFun("tee.a", []string{sInt}, sInt)
+	fe.declFun("tee.b", []string{sInt}, sInt)
+	if !fe.dry {
+		fe.emit("(assert (> typ.multiwriter 0))")
+		sl := fe.val(args[0])
+		h := fe.getComp(st, compElems(sIface), arrSort(sInt, arrSort(sInt, sIface)))
+		e0 := tSel(tSel(h, slArr(sl)), slOff(sl))
+		e1 := tSel(tSel(h, slArr(sl)), tArith("+", slOff(sl), tInt(1)))
+		fe.emit(fmt.Sprintf("(assert (=> (>= (s_len %s) 1) (= (tee.a %s) (i_val %s))))", sl.S, r.S, e0.S))
+		fe.emit(fmt.Sprintf("(assert (=> (>= (s_len %s) 2) (= (tee.b %s) (i_val %s))))", sl.S, r.S, e1.S))
+	}
+	return one(mkIface(Term{"typ.multiwriter", sInt}, r))
+}
+
+// Digester.Hash(): the same hash object every time, non-nil
+func effDigesterHash(fe *FnEnc, st *State, callee *ssa.Function, args []RV, pos token.Pos) []RV {
+	fe.declConst("typ.hash", sInt)
+	fe.declFun("digester.hash", []string{sInt}, sInt)
+	if !fe.dry {
+		fe.emit("(assert (> typ.hash 0))")
+	}
+	v := Term{app("digester.hash", ifVal(fe.val(args[0]))), sInt}
+	if !fe.dry {
+		fe.emit("(assert (not (= " + v.S + " 0)))")
+	}
+	return one(mkIface(Term{"typ.hash", sInt}, v))
+}
+
+// Algorithm.Digester(): a new digester
+func effNewDigester(fe *FnEnc, st *State, callee *ssa.Function, args []RV, pos token.Pos) []RV {
+	r := fe.newRef(st)
+	fe.declConst("typ.digester", sInt)
+	if !fe.dry {
+		fe.emit("(assert (> typ.digester 0))")
+	}
+	return one(mkIface(Term{"typ.digester", sInt}, r))
+}
+
+
+// ---------------------------------------------------------------------
+// paths: path.inside(x, y) "x is below directory y", path.safe(s) "s is a relative path without .. elements"
+
+func declPathFuns(fe *FnEnc) {
+	if fe.declared["path.funs"] {
+		return
+	}
+	fe.declared["path.funs"] = true
+	fe.declFun("path.inside", []string{sStr, sStr}, sBool)
+	fe.declFun("path.safe", []string{sStr}, sBool)
+	fe.declFun("path.join", []string{sStr, sStr}, sStr)
+	fe.emit("(assert (forall ((x Str) (y Str) (z Str)) (! (=> (and (path.inside x y) (path.inside y z)) (path.inside x z)) :pattern ((path.inside x y) (path.inside y z)))))")
+	fe.emit("(assert (path.safe str.empty))")
+}
+
+// safeLiteral: a literal that is a relative path and has no .. element
+func safeLiteral(s string) bool {
+	if strings.HasPrefix(s, "/") || strings.ContainsRune(s, 0) {
+		return false
+	}
+	for _, el := range strings.Split(s, "/") {
+		if el == ".." {
+			return false
+		}
+	}
+	return true
+}
+
+func pathSafeFacts(fe *FnEnc, t Term) {
+	if lit, ok := fe.lits[t.S]; ok && safeLiteral(lit) {
+		fe.emit("(assert (path.safe " + t.S + "))")
+	}
+}
+
+// filepath.Join(base, e1, ..., en): nested path.join; each step stays below the previous one when the element is safe
+// digestPart: algorithm / encoded part of a digest; for a valid digest both are single, safe path elements
+// (the algorithm is a registered name, the encoded part is hexadecimal)
+func digestPart(name string) effectFn {
+	uf := ufEffect(name, sStr)
+	return func(fe *FnEnc, st *State, callee *ssa.Function, args []RV, pos token.Pos) []RV {
+		r := uf(fe, st, callee, args, pos)
+		if !fe.dry {
+			declPathFuns(fe)
+			fe.declFun("digestOK", []string{sStr}, sBool)
+			fe.emit(fmt.Sprintf("(assert (=> (digestOK %s) (path.safe %s)))", fe.val(args[0]).S, r[0].T.S))
+		}
+		return r
+	}
+}
+
+func effPathJoin(fe *FnEnc, st *State, callee *ssa.Function, args []RV, pos token.Pos) []RV {
+	if fe.dry {
+		return one(Term{"str.empty", sStr})
+	}
+	declPathFuns(fe)
+	for _, ln := range fe.litOrder {
+		if !fe.declared["path.safe:"+ln] && safeLiteral(fe.lits[ln]) {
+			fe.declared["path.safe:"+ln] = true
+			fe.emit("(assert (path.safe " + ln + "))")
+		}
+	}
+	n, ok := int64(0), false
+	if len(fe.curCallArgs) == 1 {
+		n, ok = constLen(fe.curCallArgs[0])
+	}
+	if !ok || n == 0 {
+		return one(fe.fresh("join", sStr))
+	}
+	sl := fe.val(args[0])
+	h := fe.getComp(st, compElems(sStr), arrSort(sInt, arrSort(sInt, sStr)))
+	el := func(i int64) Term {
+		return fe.define("join.el", tSel(tSel(h, slArr(sl)), tArith("+", slOff(sl), tInt(i))))
+	}
+	acc := el(0)
+	for i := int64(1); i < n; i++ {
+		e := el(i)
+		next := fe.define("join", Term{app("path.join", acc, e), sStr})
+		fe.emit(fmt.Sprintf("(assert (=> (path.safe %s) (path.inside %s %s)))", e.S, next.S, acc.S))
+		acc = next
+	}
+	return one(acc)
+}
+
+func fileName(fe *FnEnc, f Term) Term {
+	fe.declFun("file.name", []string{sInt}, sStr)
+	return Term{app("file.name", f), sStr}
+}
+
+// os.CreateTemp(dir, pattern): a new file below dir (the pattern may not contain a separator, or the call fails)
+func effCreateTemp(fe *FnEnc, st *State, callee *ssa.Function, args []RV, pos token.Pos) []RV {
+	fe.havocComp(st, "alloc", sInt)
+	if fe.dry {
+		return []RV{{T: tInt(0), Valid: true}, {T: nilIface, Valid: true}}
+	}
+	declPathFuns(fe)
+	f := fe.fresh("tempfile", sInt)
+	err := fe.fresh("createtemp.err", sIface)
+	fe.emit("(assert (=> (= (i_typ " + err.S + ") 0) (= (i_val " + err.S + ") 0)))")
+	fe.emit(fmt.Sprintf("(assert (=> (= %s (mkIface 0 0)) (and (> %s 0) (<= %s %s) (path.inside %s %s))))", err.S, f.S, f.S, fe.alloc(st).S, fileName(fe, f).S, fe.val(args[0]).S))
+	fe.emit(fmt.Sprintf("(assert (=> (not (= %s (mkIface 0 0))) (= %s 0)))", err.S, f.S))
+	return []RV{{T: f, Valid: true}, {T: err, Valid: true}}
+}
+
+// fs.DirEntry.Name(): the name of a directory entry is a single element and never ".."
+func effDirEntryName(fe *FnEnc, st *State, callee *ssa.Function, args []RV, pos token.Pos) []RV {
+	if fe.dry {
+		return one(Term{"str.empty", sStr})
+	}
+	declPathFuns(fe)
+	n := fe.fresh("direntry.name", sStr)
+	fe.emit("(assert (path.safe " + n.S + "))")
+	return one(n)
+}
+
+
+// Digester.Digest(): the digest of what was hashed so far; always a well-formed digest of the digester's algorithm
+func effDigesterDigest(fe *FnEnc, st *State, callee *ssa.Function, args []RV, pos token.Pos) []RV {
+	if fe.dry {
+		return one(Term{"str.empty", sStr})
+	}
+	fe.declFun("digestOK", []string{sStr}, sBool)
+	d := fe.fresh("digester.digest", sStr)
+	fe.emit("(assert (digestOK " + d.S + "))")
+	return one(d)
 }
